@@ -179,6 +179,9 @@ func continuesPreviousStatement(e Expression) bool {
 		case *CallExpression:
 			e = v.Function
 		case *MemberExpression:
+			if il, ok := v.Object.(*IntegerLiteral); ok && !v.Computed && isDecimalDigits(il.Token.Literal) {
+				return true // printed with parentheses
+			}
 			e = v.Object
 		case *PostfixExpression:
 			if v.Left.Precedence() < PrecedencePostfix {
@@ -647,7 +650,12 @@ type MemberExpression struct {
 }
 
 func (me *MemberExpression) WriteTo(cw *CodeWriter) {
-	me.Object.WriteTo(cw)
+	if il, ok := me.Object.(*IntegerLiteral); ok && !me.Computed && isDecimalDigits(il.Token.Literal) {
+		// `1.prop` would be read as a number with a fraction: print `(1).prop`
+		writeParenthesized(cw, me.Object)
+	} else {
+		me.Object.WriteTo(cw)
+	}
 	cw.WriteLeadingComments(me.Token.LeadingComments)
 	if me.Computed {
 		cw.AddMapping(me.Token.Start)
@@ -659,6 +667,15 @@ func (me *MemberExpression) WriteTo(cw *CodeWriter) {
 		cw.WriteRune('.')
 		me.Property.WriteTo(cw)
 	}
+}
+
+func isDecimalDigits(s string) bool {
+	for i := 0; i < len(s); i++ {
+		if s[i] < '0' || s[i] > '9' {
+			return false
+		}
+	}
+	return true
 }
 
 func (me *MemberExpression) Precedence() int {
